@@ -36,7 +36,8 @@ REQUIRED_COUNTERS = ["applies", "instruction_attributions_compared",
                      "entries_compared", "inserted_functions_compared"]
 
 def gen_case(rng, tier, index):
-    case = gen_rewrite.generate(rng, tier, entry_chain_p=0.08)
+    case = gen_rewrite.generate(rng, tier, entry_chain_p=0.08,
+                                 entry_kept_p=0.15)
     if not case["funcs"] and rng.random() < 0.5:
         # no function information at all: the three tables are absent
         case["no_function_tables"] = True
